@@ -14,7 +14,8 @@
    implementation returns (support of the sample list, coefficient = product, counts, projection, lookup shapes),
    used by Corr/C01Corr.v.  No proofs here (Proofs/RoundtripP.v). *)
 From Coq Require Import QArith Qabs.
-From CKT Require Import Common.Base Model.Observables Model.Partition Model.Experiments.
+From CKT Require Import Common.Base Common.Circ Model.Observables Model.Partition Model.Decompose Model.Measurement Model.Experiments.
+From CKT Require Model.Reconstruct.
 Close Scope Q_scope.
 
 (* ---------------------------------------------------------------------------------------------
@@ -120,3 +121,51 @@ Definition lookup_ok (nobs : nat) (p : list nat * list (list (nat * nat))) : boo
    --------------------------------------------------------------------------------------------- *)
 Definition pipeline_refuses (ls : list (option nat)) (ps : list pauli) : bool :=
   negb (is_ok (sub_observables ls ps)).
+
+(* ---------------------------------------------------------------------------------------------
+   4. the generated experiments seen by the reconstruction (composition C05 ; sampler ; C06).
+      run : mcirc -> quasi-distribution is the EXACT evaluation of one subexperiment (the sampler; ExactSampler is
+      property C13) — a function argument.  Everything else is the C05 model (build1, optimise, the partition table)
+      and the C06 vocabulary (part, E_exp, Qmean).
+   --------------------------------------------------------------------------------------------- *)
+Definition empty_mcirc : mcirc := mkMC 0 0 [] [].
+Definition empty_pinfo : pinfo := mkPI empty_mcirc [] (Some []).
+Definition empty_ogroup : ogroup := mkOG [] [].
+Definition empty_part : Reconstruct.part := Reconstruct.mkPart 0 [] [] [].
+
+(* the subexperiment of a partition for the map ids `pids` of its placeholders and the commuting group g:
+   what the loop body of generate_cutting_experiments builds (build1), after the three reset passes (optimise) *)
+Definition exp_of (gh gsx : nat) (env : benv) (p : pinfo) (pids : jkey) (g : ogroup) : mcirc :=
+  match build1 gh gsx env (pi_qc p) (pi_ids p) pids g with Ok e => optimise e | _ => empty_mcirc end.
+
+Definition pinfo_of (table : list (nat * pinfo)) (l : nat) : pinfo :=
+  match alookup table l with Some p => p | None => empty_pinfo end.
+
+(* subcirc_map_ids[label]; in the unseparated form every joint id is used, in order *)
+Definition sfx_of (ncuts : nat) (p : pinfo) : list nat :=
+  match pi_sfx p with Some sfx => sfx | None => identity_sfx ncuts end.
+
+(* the projection lists of a whole request: one per partition, in the order of the observables dict *)
+Definition L_of (ncuts : nat) (table : list (nat * pinfo)) (og : list (nat * list ogroup)) : list (list nat) :=
+  map (fun lg => sfx_of ncuts (pinfo_of table (fst lg))) og.
+
+(* decoded value of observable k from the exact results of ONE partition when its placeholders carry the map ids
+   pids: mean over the lookup locations (group m, member n) of the decoded result of the subexperiment of group m.
+   rp is the reconstruction's view of the partition's ObservableCollection, gs generation's view of the same groups. *)
+Definition E_gen (gh gsx : nat) (env : benv) (run : mcirc -> list (Reconstruct.key * Q)) (den : Reconstruct.key -> N)
+           (rp : Reconstruct.part) (p : pinfo) (gs : list ogroup) (pids : jkey) (k : nat) : Q :=
+  Reconstruct.Qmean
+    (map (fun mn => Reconstruct.E_exp den (nth (fst mn) (Reconstruct.pgroups rp) Reconstruct.dcog) (snd mn)
+                      (Reconstruct.DV1 [run (exp_of gh gsx env p pids (nth (fst mn) gs empty_ogroup))]) 0)
+         (nth k (Reconstruct.plookup rp) [])).
+
+Definition E_all (gh gsx : nat) (env : benv) (run : mcirc -> list (Reconstruct.key * Q)) (den : Reconstruct.key -> N)
+           (table : list (nat * pinfo)) (og : list (nat * list ogroup)) (rparts : list Reconstruct.part)
+           (li : nat) (pids : jkey) (k : nat) : Q :=
+  let lg := nth li og (0, []) in
+  E_gen gh gsx env run den (nth li rparts empty_part) (pinfo_of table (fst lg)) (snd lg) pids k.
+
+(* the results handed to reconstruct_expectation_values: every generated circuit evaluated exactly, in order *)
+Definition results_of (run : mcirc -> list (Reconstruct.key * Q)) (rparts : list Reconstruct.part)
+           (full : list (nat * list mcirc)) : list (Reconstruct.part * Reconstruct.pdata) :=
+  combine rparts (map (fun le => Reconstruct.DV1 (map run (snd le))) full).
